@@ -2262,42 +2262,19 @@ func (e *CoreExtension) functionParent(args ...interface{}) (interface{}, error)
 			return nil, errors.New("parent() function can only be used within a block")
 		}
 
-		// Get the name of the current block
-		blockName := ctx.currentBlock.name
-
-		// Debug logging
-		LogDebug("parent() call for block '%s'", blockName)
-		LogDebug("inParentCall=%v, currentBlock=%p", ctx.inParentCall, ctx.currentBlock)
-		LogDebug("Blocks in context: %v", getMapKeys(ctx.blocks))
-		LogDebug("Parent blocks in context: %v", getMapKeys(ctx.parentBlocks))
-
-		// Check for parent content in the parentBlocks map
-		parentContent, ok := ctx.parentBlocks[blockName]
-		if !ok || len(parentContent) == 0 {
-			return "", fmt.Errorf("no parent block content found for block '%s'", blockName)
+		// The next definition up the extends chain
+		level := ctx.blockLevel + 1
+		if level >= len(ctx.currentChain) {
+			return "", fmt.Errorf("no parent block content found for block '%s'", ctx.currentBlock.name)
 		}
 
-		// For the simplest possible solution, render the parent content directly
-		// This is the most direct way to avoid recursion issues
+		// Render it with the same variables; a parent() inside it continues
+		// one level further up
 		var result bytes.Buffer
-
-		// Create a clean context without parent() function to prevent recursion
-		cleanCtx := NewRenderContext(ctx.env, ctx.context, ctx.engine)
-		cleanCtx.sandboxed = ctx.sandboxed
-		cleanCtx.templateName = ctx.templateName
-		defer cleanCtx.Release()
-
-		// Copy all blocks and variables
-		for name, content := range ctx.blocks {
-			cleanCtx.blocks[name] = content
-		}
-
-		// The key here is to NOT set currentBlock - this breaks the recursion chain
-		cleanCtx.currentBlock = nil
-
-		// Render each node with the clean context
-		for _, node := range parentContent {
-			if err := node.Render(&result, cleanCtx); err != nil {
+		ctx.blockLevel = level
+		defer func() { ctx.blockLevel = level - 1 }()
+		for _, node := range ctx.currentChain[level].body {
+			if err := node.Render(&result, ctx); err != nil {
 				return nil, err
 			}
 		}
